@@ -377,6 +377,12 @@ def getslice(run, base, lo, hi, node):
 
 def setitem(run, cont, key, v, node):
     _unmodelled(run, cont, node, "writes")
+    if isinstance(cont, Conc) and cont.obj == ("emptydict",) and isinstance(key, Val) and isinstance(v, Val):
+        # first store into a `{}` whose type nobody declared: a dict from the key's type to the value's type
+        if isinstance(key.ty, TOpt):
+            key = run.coerce(key, key.ty.inner)      # a None key would be a different dict type: obligation type#notnone
+        dty = TDict(key.ty, v.ty)
+        cont = Val(dty, dty.empty())
     cont = unopt(run, cont, node)
     ty = cont.ty
     if isinstance(ty, TDict):
